@@ -285,10 +285,11 @@ def snapping (eps sens lo hi v : α) (signBit : Bool) (u : α) : α :=
 
 /-! ### selection mechanisms: the returned INDEX into the candidate list -/
 
-/-- first index `i` with `u <= cum[i]` (`np.argmax(rand <= probabilities)` when `.any()`) -/
+/-- first index `i` with `u < cum[i]` (`np.argmax(rand < probabilities)` when `.any()`; strict, so that a candidate of
+probability 0 is never selected, not even by the uniform 0.0) -/
 def firstLe (u : α) : List α → Nat → Option Nat
   | [], _ => none
-  | p :: ps, i => if u ≤ p then some i else firstLe u ps (i + 1)
+  | p :: ps, i => if u < p then some i else firstLe u ps (i + 1)
 
 /-- `Exponential.randomise`: index into `candidates`; `close` = `np.isclose(rand, probabilities[-1])` -/
 def expSelect (cum : List α) (u : α) (close : Bool) : Except RErr Nat :=
@@ -297,12 +298,12 @@ def expSelect (cum : List α) (u : α) (close : Bool) : Except RErr Nat :=
   | none => if close && 0 < cum.length then .ok (cum.length - 1) else .error .runtime
 
 /-- `ExponentialCategorical.randomise`: running sum of the target probabilities, first target with
-`unif_rv <= cum_prob`, otherwise the last target -/
+`unif_rv < cum_prob`, otherwise the last target -/
 def catLoop (t : α) : List α → α → Nat → Nat → Nat
   | [], _, _, last => last
   | p :: ps, cum, i, _ =>
     let cum' := cum + p
-    if t ≤ cum' then i else catLoop t ps cum' (i + 1) i
+    if t < cum' then i else catLoop t ps cum' (i + 1) i
 
 def catSelect (probs : List α) (t : α) : Nat := catLoop t probs 0 0 0
 
